@@ -2,6 +2,6 @@
 # usage: run.sh <timeout-s> <harness> [<harness>...]   — one cargo-kani invocation, terse output
 cd /verif/kani
 T=$1; shift
-H=""; for h in "$@"; do H="$H --harness $h"; done
+H=""; for h in "$@"; do H="$H --harness proofs::$h"; done
 cp /repo/Cargo.lock Cargo.lock
-RUSTFLAGS="--cfg miri" CARGO_NET_OFFLINE=true timeout $T cargo kani $H --target-dir /verif/.build/kani --output-format terse 2>&1
+RUSTFLAGS="--cfg miri" CARGO_NET_OFFLINE=true timeout $T cargo kani --exact $H --target-dir /verif/.build/kani --output-format terse 2>&1
